@@ -60,7 +60,9 @@ def run_case(case):
     c = Constants()
     tp = 2 * math.pi
     dz = 0.5 if nz % 2 else 0.37          # a dyadic and a non-dyadic cell size
-    c.R0 = nz * dz / tp
+    # a full torus (z period = 2 pi R0) for half of the cases, a z domain of another length for the other half (the twist
+    # per cell is iota*dz/R0, whatever the length of the domain)
+    c.R0 = nz * dz / tp * (1.7 if (order + nz) % 2 else 1.0)
     R0 = c.R0
     if iota == 'profile':
         c.iotaVal = 0.8
